@@ -168,5 +168,19 @@ T9 == {[Case("T9", "wrapped", <<F("a", Prim("Integer"), 0, 1)>>, <<Leaf("5")>>, 
           EXCEPT !.inh = <<H1, H2>>, !.inhvals = <<i1, i2>>, !.outh = <<H1, H2>>, !.outhvals = <<o1, o2>>] :
              i1 \in H1Vals, i2 \in H2Vals, o1 \in H1Vals, o2 \in H2Vals}
 
+\* T10: members of type AnyXml: the value is an XML TREE of the application's own making, carried as it is (named trees, spelled
+\* out in SpyneXmlDoc.TreeToks): elements in a namespace of their own, and - the usual way property bags type their values - xsi:type
+\* markers naming XML Schema types through a prefix that NOTHING ELSE in the document uses.  What a marker denotes (the namespace
+\* its prefix is bound to) is part of the value.  Not part of Cases (the dict protocols and the schema-driven client have no tree
+\* type): exported as the family "any".
+AnyT == [k |-> "any"]
+XmlV(n) == <<"xml", n>>
+TreeNames == {"plain", "typed_int", "typed_bag"}
+Bag10 == Obj("Bag", "tns", <<F("label", Prim("Unicode"), 0, 1), F("x", AnyT, 0, 1)>>)
+T10 == {Case("T10", "wrapped", <<F("x", AnyT, 0, 1), F("n", Prim("Integer"), 0, 1)>>, <<XmlV(a), Leaf("5")>>, <<AnyT>>, <<XmlV(r)>>) : a \in TreeNames, r \in TreeNames}
+       \cup {Case("T10", "wrapped", <<F("b", Bag10, 0, 1)>>, <<ObjV("Bag", <<Leaf("hello"), XmlV(a)>>)>>, <<Bag10>>, <<ObjV("Bag", <<Nil, XmlV(a)>>)>>) : a \in TreeNames}
+       \cup {Case("T10", "wrapped", <<F("n", Prim("Integer"), 0, 1)>>, <<Leaf("5")>>, <<Prim("Integer"), AnyT>>, <<Leaf("5"), XmlV(r)>>) : r \in TreeNames}
+AnyCases == T10
+
 Cases == T9 \cup T1 \cup T2 \cup T3 \cup T3b \cup T4 \cup T5 \cup T6 \cup T6b \cup T6c \cup T6d \cup T7 \cup T8
 =============================================================================
